@@ -26,6 +26,8 @@ pub enum Ev {
 	HS(usize),
 	Reopen,
 	Compact,
+	/// Chain::validate_tx of tree transaction i (the pool's gate; never changes chain state)
+	T(usize),
 }
 
 impl Ev {
@@ -36,6 +38,7 @@ impl Ev {
 			Ev::HS(i) => format!("HS(..{})", t.blocks[*i].name),
 			Ev::Reopen => "reopen".into(),
 			Ev::Compact => "compact".into(),
+			Ev::T(i) => format!("T({})", t.txs[*i].0),
 		}
 	}
 }
@@ -153,6 +156,7 @@ impl Model {
 				Expect { ok: Some(true), accepted: Some(BTreeSet::new()), why: "reopen".into() }
 			}
 			Ev::Compact => Expect { ok: None, accepted: Some(BTreeSet::new()), why: "compact".into() },
+			Ev::T(_) => Expect { ok: None, accepted: Some(BTreeSet::new()), why: "validate_tx".into() },
 		}
 	}
 }
@@ -166,6 +170,8 @@ pub struct Live<'a> {
 	pub opts: Options,
 	pub hashes: Vec<Hash>,
 	pub commits: Vec<Commitment>,
+	/// excesses of the NRD kernels of the universe (blocks and probe transactions)
+	pub nrd_excesses: Vec<Commitment>,
 }
 
 #[derive(Debug, Clone)]
@@ -193,6 +199,7 @@ impl<'a> Live<'a> {
 			opts,
 			hashes,
 			commits: tree.all_commits(),
+			nrd_excesses: tree.nrd_excesses(),
 		}
 	}
 	pub fn open_model(tree: &'a Tree, dir: &Path, opts: Options, model: Model) -> Live<'a> {
@@ -204,7 +211,11 @@ impl<'a> Live<'a> {
 		self.chain.as_ref().unwrap()
 	}
 	pub fn fp(&self) -> Fp {
-		fp::chain_fp(self.chain(), &self.hashes, &self.commits)
+		let mut f = fp::chain_fp(self.chain(), &self.hashes, &self.commits);
+		if !self.nrd_excesses.is_empty() {
+			fp::add_nrd_lines(&mut f, self.chain(), &self.nrd_excesses);
+		}
+		f
 	}
 	fn head_pair(&self) -> (Hash, u64) {
 		let h = self.chain().head().expect("head");
@@ -248,6 +259,7 @@ impl<'a> Live<'a> {
 				}
 			}
 			Ev::Compact => self.chain().compact().map_err(|e| format!("{:?}", e)),
+			Ev::T(i) => self.chain().validate_tx(&self.tree.txs[*i].1).map_err(|e| format!("{:?}", e)),
 		};
 		let mut accepted = vec![];
 		for (h, s) in self.rec.log.lock().unwrap().iter() {
@@ -541,6 +553,7 @@ impl<'a> Explorer<'a> {
 					Ev::HS(_) => "HS",
 					Ev::Reopen => "reopen",
 					Ev::Compact => "compact",
+					Ev::T(_) => "T",
 				},
 				if out.ok {
 					if out.accepted.is_empty() { "ok".to_string() } else { out.accepted.iter().map(|(_, s)| s.split('@').next().unwrap().to_string()).collect::<Vec<_>>().join("+") }
@@ -652,6 +665,7 @@ impl<'a> Explorer<'a> {
 					Ev::HS(_) => "HS",
 					Ev::Reopen => "reopen",
 					Ev::Compact => "compact",
+					Ev::T(_) => "T",
 				},
 				if out.ok {
 					if out.accepted.is_empty() {
@@ -742,6 +756,7 @@ impl TreeBuilder {
 				gen,
 				blocks: vec![],
 				nrd_enabled: false,
+				txs: vec![],
 			},
 			skip_pow,
 		}
@@ -942,6 +957,11 @@ pub fn replay_events(tree: &Tree, case: &Value, opts: Options, sc: &uni::Scratch
 		}
 		if s == "compact" {
 			found = Some(Ev::Compact);
+		}
+		for (i, _) in tree.txs.iter().enumerate() {
+			if Ev::T(i).show(tree) == s {
+				found = Some(Ev::T(i));
+			}
 		}
 		let ev = found.ok_or(format!("unknown event {}", s))?;
 		let o = live.apply(&ev);
